@@ -22,7 +22,7 @@
 (*    meta]                                                                *)
 (* st (threaded through evaluation, in evaluation order):                  *)
 (*   [vars, stopped, skip, advance, valid, matchCount, curMatch, scanCount,*)
-(*    printed, frozen, memo, cur]                                          *)
+(*    printed, frozen, memo, cur, line, headers, limit, appended]          *)
 (*   memo[i] \in {"n","t","f"}: the per-line vote memo of Matcher.expressions *)
 (*                                                                         *)
 (* Ev returns [val, vote, st]: what to_value() and matches() of the node   *)
@@ -35,20 +35,29 @@ EXTENDS Values, Assign, Print, TLC
 CONSTANT Dev
 
 R(val, vote, st) == [val |-> val, vote |-> vote, st |-> st]
+\* st.sig: the cross-path signals this csvpath has raised and the CsvPaths instance has not yet taken note of (GroupRun.tla)
+NoSig == [stop |-> FALSE, fail |-> FALSE, skip |-> FALSE, adv |-> 0]
 QSet(node) == {node.quals[j] : j \in 1..Len(node.quals)}
 Has(node, q) == q \in QSet(node)
 
 \* ---- headers -------------------------------------------------------------------------------------
-HdrIndex(node, ctx) ==
+\* st.headers: the current header names (append() adds to them); st.line: the current line as a sequence of values
+\* (the cells of the record as text; replace() and append() may put any value there)
+HdrIndex(node, hs) ==
   IF node.val.t = "int" THEN node.val.i
-  ELSE IF \E j \in 1..Len(ctx.headers) : ctx.headers[j] = node.val.s
-         THEN (CHOOSE j \in 1..Len(ctx.headers) :
-                  ctx.headers[j] = node.val.s /\ \A m \in 1..(j-1) : ctx.headers[m] # node.val.s) - 1
+  ELSE IF \E j \in 1..Len(hs) : hs[j] = node.val.s
+         THEN (CHOOSE j \in 1..Len(hs) : hs[j] = node.val.s /\ \A m \in 1..(j-1) : hs[m] # node.val.s) - 1
          ELSE -1
+Cell(v) == IF v.t = "str" THEN VStr(Strip(v.s)) ELSE v
+CellText(v) == StrOf(v)
 \* the cell, stripped; a header the row does not reach, or an unknown name, is None
-HdrRaw(node, ctx) ==
-  LET n == HdrIndex(node, ctx) IN
-    IF n < 0 \/ n >= Len(ctx.line) THEN None ELSE VStr(Strip(ctx.line[n + 1]))
+HdrRaw(node, st) ==
+  LET n == HdrIndex(node, st.headers) IN
+    IF n < 0 \/ n >= Len(st.line) THEN None ELSE Cell(st.line[n + 1])
+LineOf(cells) == [j \in 1..Len(cells) |-> VStr(cells[j])]
+TextsOf(line) == [j \in 1..Len(line) |-> CellText(line[j])]
+\* CsvPath.limit_collection: the line as it is handed to the caller (collect() projects it)
+Limited(st) == IF st.limit = <<>> THEN st.line ELSE [j \in 1..Len(st.limit) |-> st.line[st.limit[j] + 1]]
 
 RaiseMatch(st) == IF st.curMatch = st.matchCount
                     THEN [st EXCEPT !.matchCount = st.matchCount + 1] ELSE st
@@ -104,6 +113,8 @@ EqualsFn(l, r) ==
   ELSE StrOf(l) = StrOf(r)
 
 NonBlankCell(c) == Strip(c) # <<>>
+\* a cell of the current line "exists": not None and not blank (a rewritten cell may hold any value)
+PresentCell(v) == v.t # "none" /\ Strip(StrOf(v)) # <<>>
 
 RECURSIVE SumNums(_)
 SumNums(rs) == IF rs = <<>> THEN 0 ELSE (IF IsNone(Head(rs).val) THEN 0 ELSE NumOf(Head(rs).val)) + SumNums(Tail(rs))
@@ -183,21 +194,21 @@ EvFn(node, st0, ctx) ==
                      -> LET b == Between(nm, A(1), A(2), A(3)) IN R(VBool(b), b, st)
     [] nm = "in"     -> LET b == ListHas(InValues(Tail(node.args), Tail(rs)), A(1)) IN R(VBool(b), b, st)
     [] nm \in {"equals", "eq"} -> LET b == EqualsFn(A(1), A(2)) IN R(VBool(b), b, st)
-    [] nm = "any"    -> LET b == (\E j \in 1..Len(ctx.line) : NonBlankCell(ctx.line[j]))
+    [] nm = "any"    -> LET b == (\E j \in 1..Len(st.line) : PresentCell(st.line[j]))
                                  \/ (\E j \in 1..Len(st.vars) : ~IsNone(st.vars[j].v))
                         IN R(VBool(b), b, st)
     [] nm \in {"all", "missing"} ->
-          LET ok == IF N = 0 THEN Len(ctx.line) = Len(ctx.headers) /\ \A j \in 1..Len(ctx.line) : NonBlankCell(ctx.line[j])
+          LET ok == IF N = 0 THEN Len(st.line) = Len(st.headers) /\ \A j \in 1..Len(st.line) : PresentCell(st.line[j])
                     ELSE \A j \in 1..N : ~(A(j).t = "none" \/ (A(j).t = "str" /\ Strip(A(j).s) = <<>>))
               b == IF nm = "missing" THEN ~ok ELSE ok
           IN R(VBool(b), b, st)
     [] nm = "none"   -> IF N = 0 THEN R(None, TRUE, st) ELSE R(None, IsNone(A(1)), st)
     \* value producers without a vote of their own (see count_lines below)
-    [] nm = "count_headers"         -> R(VInt(Len(ctx.headers)), FALSE, st)
-    [] nm = "count_headers_in_line" -> R(VInt(Len(ctx.line)), FALSE, st)
+    [] nm = "count_headers"         -> R(VInt(Len(st.headers)), FALSE, st)
+    [] nm = "count_headers_in_line" -> R(VInt(Len(st.line)), FALSE, st)
     [] nm = "end"    ->      \* the cell n places before the last cell of THIS line (stripped, like every function value)
-          LET i == Len(ctx.line) - 1 - (IF N = 0 THEN 0 ELSE (IF NumOf(A(1)) < 0 THEN 0 - NumOf(A(1)) ELSE NumOf(A(1))))
-              v == IF i >= 0 /\ i < Len(ctx.line) THEN VStr(Strip(ctx.line[i + 1])) ELSE None
+          LET i == Len(st.line) - 1 - (IF N = 0 THEN 0 ELSE (IF NumOf(A(1)) < 0 THEN 0 - NumOf(A(1)) ELSE NumOf(A(1))))
+              v == IF i >= 0 /\ i < Len(st.line) THEN Cell(st.line[i + 1]) ELSE None
           IN R(v, v.t # "none", st)
     [] nm = "firstmatch" ->  \* no line has matched yet and this one does (a look-ahead)
           IF st.matchCount = 0
@@ -208,12 +219,26 @@ EvFn(node, st0, ctx) ==
               isnum == x.t = "int" \/ (x.t = "str" /\ IsDigits(Strip(x.s)))
               i == NumOf(x)
               actual == IF isnum
-                          THEN (IF i >= 0 /\ i < Len(ctx.headers) THEN VStr(ctx.headers[i + 1]) ELSE None)
-                          ELSE LET h == HdrIndex([val |-> x], ctx) IN IF h < 0 THEN None ELSE VInt(h)
+                          THEN (IF i >= 0 /\ i < Len(st.headers) THEN VStr(st.headers[i + 1]) ELSE None)
+                          ELSE LET h == HdrIndex([val |-> x], st.headers) IN IF h < 0 THEN None ELSE VInt(h)
               val == IF N = 1 \/ A(2).t = "none" THEN actual
                      ELSE VBool(actual.t # "none" /\ PyEq(actual, A(2)))
               vote == IF val.t = "none" THEN FALSE ELSE IF val.t = "bool" THEN val.i = 1 ELSE TRUE
           IN R(val, vote, st)
+    \* ---- the functions that rewrite or project the line (C06's exception) ------------------------
+    [] nm = "replace" ->     \* replace(header, value): the cell is overwritten in place; later components and the caller see it
+          LET i == HdrIndex([val |-> A(1)], st.headers)
+          IN R(None, D, [st EXCEPT !.line = [j \in 1..Len(st.line) |-> IF j = i + 1 THEN A(2) ELSE st.line[j]]])
+    [] nm = "append" ->      \* append(name, value [, name-to-data]): a new last cell on every line it runs on; the header name is
+                             \* added once (the first time this component runs, unless a header of that name exists)
+          LET first == node.name_q \notin st.appended
+              known == \E j \in 1..Len(st.headers) : st.headers[j] = A(1).s
+              hs2 == IF first /\ ~known THEN Append(st.headers, A(1).s) ELSE st.headers
+              nameToData == first /\ ~known /\ N = 3 /\ A(3) = VBool(TRUE)
+              cell == IF nameToData THEN A(1) ELSE A(2)
+          IN R(None, D, [st EXCEPT !.line = Append(st.line, cell), !.headers = hs2, !.appended = @ \cup {node.name_q}])
+    [] nm = "collect" ->     \* collect(h, ...): from now on the caller receives only these cells, in this order
+          R(None, D, [st EXCEPT !.limit = [j \in 1..N |-> HdrIndex([val |-> A(j)], st.headers)]])
     [] nm = "strip"  -> R(VStr(Strip(StrOf(A(1)))), D, st)
     [] nm = "mod"    -> R(VFloat(NumOf(A(1)) % NumOf(A(2))), D, st)
     [] nm = "int"    -> R(IF A(1).t = "none" THEN None ELSE VInt(NumOf(A(1))), D, st)
@@ -331,16 +356,22 @@ EvFn(node, st0, ctx) ==
               xs == IF cur.t = "list" THEN cur.items ELSE <<>>
               r == IF A(2).i >= 0 /\ A(2).i < Len(xs) THEN xs[A(2).i + 1] ELSE None
           IN R(r, D, [st EXCEPT !.vars = SetVar(st.vars, v, VList(xs))])
-    [] nm \in {"stop", "fail_and_stop"} ->
+    \* stop_all / skip_all / advance_all / fail_all also signal the CsvPaths instance that runs the group (Group.tla);
+    \* on the csvpath that executes them they are stop / skip / advance / fail
+    [] nm \in {"stop", "fail_and_stop", "stop_all"} ->
           LET fire == N = 0 \/ rs[1].vote
-              st1 == IF fire THEN [st EXCEPT !.stopped = TRUE] ELSE st
+              st0s == IF fire /\ nm = "stop_all" THEN [st EXCEPT !.sig.stop = TRUE] ELSE st
+              st1 == IF fire THEN [st0s EXCEPT !.stopped = TRUE] ELSE st0s
               st2 == IF fire /\ nm = "fail_and_stop" THEN [st1 EXCEPT !.valid = FALSE] ELSE st1
           IN R(None, D, st2)
-    [] nm = "skip" ->
+    [] nm \in {"skip", "skip_all"} ->
           LET fire == N = 0 \/ rs[1].vote
-          IN R(None, D, IF fire THEN [st EXCEPT !.skip = TRUE] ELSE st)
-    [] nm = "advance" -> R(None, D, [st EXCEPT !.advance = A(1).i])
-    [] nm = "fail"    -> R(VBool(D), D, [st EXCEPT !.valid = FALSE])
+              st1 == IF fire /\ nm = "skip_all" THEN [st EXCEPT !.sig.skip = TRUE] ELSE st
+          IN R(None, D, IF fire THEN [st1 EXCEPT !.skip = TRUE] ELSE st1)
+    [] nm = "advance"     -> R(None, D, [st EXCEPT !.advance = A(1).i])
+    [] nm = "advance_all" -> R(None, D, [st EXCEPT !.advance = A(1).i, !.sig.adv = A(1).i])
+    [] nm = "fail"        -> R(VBool(D), D, [st EXCEPT !.valid = FALSE])
+    [] nm = "fail_all"    -> R(VBool(D), D, [st EXCEPT !.valid = FALSE, !.sig.fail = TRUE])
     [] nm = "failed"  -> R(VBool(~st.valid), ~st.valid, st)
     [] nm = "valid"   -> R(VBool(st.valid), st.valid, st)
     [] nm = "last"    -> LET b == ctx.k = ctx.endNum \/ ctx.lastScan
@@ -350,7 +381,7 @@ EvFn(node, st0, ctx) ==
     [] nm = "print"   ->
           \* qualifiers: once (at most one execution per run; its marker is a hash-named variable,
           \* modelled here by st.onceDone), onmatch handled above
-          LET env == [vars |-> st.vars, line |-> ctx.line, headers |-> ctx.headers, meta |-> ctx.meta, k |-> ctx.k,
+          LET env == [vars |-> st.vars, line |-> TextsOf(st.line), headers |-> st.headers, meta |-> ctx.meta, k |-> ctx.k,
                       matchCount |-> st.matchCount, scanCount |-> st.scanCount, totalData |-> ctx.totalData]
               out == IF node.tmpl = <<>> THEN A(1).s ELSE Emitted(node.tmpl, env)
               blocked == Has(node, "once") /\ node.name_q \in st.onceDone
@@ -363,7 +394,7 @@ EvFn(node, st0, ctx) ==
 Ev(node, st, ctx) ==
   CASE node.k = "term" -> R(node.val, TRUE, st)
     [] node.k = "hdr" ->
-         LET raw == HdrRaw(node, ctx)
+         LET raw == HdrRaw(node, st)
          IN IF Has(node, "asbool") THEN R(VBool(AsBool(raw)), AsBool(raw), st)
             ELSE R(raw, ~IsNone(raw), st)
     [] node.k = "var" ->
